@@ -186,6 +186,50 @@ func seeds() []seed {
 	return out
 }
 
+// bigSeeds are generated files whose payloads exceed every internal buffer
+// (64 KiB preview start buffer, 4 KiB bufio windows, 1 KiB Exif scratch).
+// They are explored through structural malformations only (their length
+// makes per-byte spaces pointless).
+var bigSeedCache []seed
+
+func bigSeeds() []seed {
+	if bigSeedCache != nil {
+		return bigSeedCache
+	}
+	II, MM := binary.LittleEndian, binary.BigEndian
+	rich := richRecord()
+	var out []seed
+	add := func(name, kind string, d *gen.Doc) {
+		out = append(out, seed{name: name, kind: kind, doc: d, gen: true})
+	}
+	{
+		p := gen.CR3FromRecord(rich, gen.CanonicalLayout(), II)
+		p.Preview = append([]byte("\xff\xd8\xff\xdb\x00\x04\x00\x00"), pattern(70000, 'p')...)
+		p.XPacket = append([]byte("<x:xmpmeta>"), pattern(9000, 'x')...)
+		add("cr3-big-preview-II", "cr3", gen.EncodeBoxes(gen.CR3(p, 0)))
+		p2 := gen.CR3FromRecord(rich, gen.CanonicalLayout(), MM)
+		p2.Preview = append([]byte("\xff\xd8"), pattern(66000, 'q')...)
+		add("cr3-big-preview-MM-64bit", "cr3", gen.EncodeBoxes(gen.CR3(p2, 4)))
+	}
+	{ // TIFF with long strings and a large maker note
+		r := richRecord()
+		for i := range r.Entries {
+			if r.Entries[i].Name == "ImageDescription" {
+				r.Entries[i].V = gen.S(string(pattern(5000, 'd')))
+			}
+			if r.Entries[i].Name == "Software" {
+				r.Entries[i].V = gen.S(string(pattern(1500, 's')))
+			}
+		}
+		d := gen.EncodeTIFF(r, richLayout(), II, gen.AllDirs)
+		add("tiff-long-strings-II", "tiff", d)
+		j, _ := gen.BuildJPEG([]gen.Seg{gen.SegXMP(append([]byte("<x:xmpmeta>"), pattern(60000, 'x')...)), gen.SegExif(gen.EncodeTIFF(r, gen.CanonicalLayout(), MM, gen.AllDirs)), gen.SegAPPn(14, 65000)}, true)
+		add("jpeg-big-segments-MM", "jpeg", j)
+	}
+	bigSeedCache = out
+	return out
+}
+
 func sniffKind(b []byte) string {
 	switch {
 	case b[0] == 0xff && b[1] == 0xd8:
